@@ -1055,6 +1055,28 @@ class NF:
             while len(a2) < len(params) and params[len(a2)] in k2:
                 a2.append(k2.pop(params[len(a2)]))
             args, kws = a2, k2
+        if isinstance(node, ast.FunctionDef) and "**" not in kws and not any(isinstance(a_, ast.Starred) for a_ in e.args):
+            # an argument that repeats the callee's own default is the call without it: trailing positionals and keywords
+            params = positional_params(node)
+            a_ = node.args
+            pos_ = a_.posonlyargs + a_.args
+            dflt = dict(zip([x.arg for x in pos_[len(pos_) - len(a_.defaults):]], a_.defaults))
+            dflt.update({x.arg: d for x, d in zip(a_.kwonlyargs, a_.kw_defaults) if d is not None})
+
+            def _is_default(name, val):
+                d = dflt.get(name)
+                if d is None or not isinstance(d, (ast.Constant, ast.UnaryOp)):
+                    return False
+                try:
+                    return self.poly(d, Scope(None, mi), None) == val
+                except Exception:
+                    return False
+            args = list(args)
+            while args and len(args) <= len(params) and not kws and _is_default(params[len(args) - 1], args[-1]):
+                args.pop()
+            kws = {k_: v_ for k_, v_ in kws.items() if not _is_default(k_, v_)}
+            while args and len(args) <= len(params) and not kws and _is_default(params[len(args) - 1], args[-1]):
+                args.pop()
         return self._mkcall(q, args, kws)
 
     @staticmethod
